@@ -68,10 +68,10 @@ namespace bxdecay0 {
     double Egamma;
     particle * ip1064  = nullptr;
     particle * ip570   = nullptr;
-    particle * ipg1064 = nullptr;
-    particle * ipg570  = nullptr;
-    particle * ipe1064 = nullptr;
-    particle * ipe570  = nullptr;
+    int npg1064 = -1;
+    int npg570  = -1;
+    int npe1064 = -1;
+    int npe570  = -1;
     double p;
     double p1064;
     double p2;
@@ -200,18 +200,18 @@ namespace bxdecay0 {
     p      = prng_() * (cg + cK + cL + cM);
     if (p <= cg) {
       decay0_gamma(prng_, event_, Egamma, tclev, thlev, tdlev);
-      ipg1064 = &event_.grab_last_particle();
+      npg1064 = event_.get_particles().size() - 1;
     } else if (p <= cg + cK) {
       decay0_electron(prng_, event_, Egamma - EbindK, tclev, thlev, tdlev);
-      ipe1064 = &event_.grab_last_particle();
+      npe1064 = event_.get_particles().size() - 1;
       PbAtShell(prng_, event_, 88, 0., 0., tdlev);
     } else if (p <= cg + cK + cL) {
       decay0_electron(prng_, event_, Egamma - EbindL, tclev, thlev, tdlev);
-      ipe1064 = &event_.grab_last_particle();
+      npe1064 = event_.get_particles().size() - 1;
       PbAtShell(prng_, event_, 15, 0., 0., tdlev);
     } else {
       decay0_electron(prng_, event_, Egamma - EbindM, tclev, thlev, tdlev);
-      ipe1064 = &event_.grab_last_particle();
+      npe1064 = event_.get_particles().size() - 1;
       PbAtShell(prng_, event_, 3, 0., 0., tdlev);
     }
     goto label_57000;
@@ -274,18 +274,18 @@ namespace bxdecay0 {
     p      = prng_() * (cg + cK + cL + cM);
     if (p <= cg) {
       decay0_gamma(prng_, event_, Egamma, tclev, thlev, tdlev);
-      ipg570 = &event_.grab_last_particle();
+      npg570 = event_.get_particles().size() - 1;
     } else if (p <= cg + cK) {
       decay0_electron(prng_, event_, Egamma - EbindK, tclev, thlev, tdlev);
-      ipe570 = &event_.grab_last_particle();
+      npe570 = event_.get_particles().size() - 1;
       PbAtShell(prng_, event_, 88, 0., 0., tdlev);
     } else if (p <= cg + cK + cL) {
       decay0_electron(prng_, event_, Egamma - EbindL, tclev, thlev, tdlev);
-      ipe570 = &event_.grab_last_particle();
+      npe570 = event_.get_particles().size() - 1;
       PbAtShell(prng_, event_, 15, 0., 0., tdlev);
     } else {
       decay0_electron(prng_, event_, Egamma - EbindM, tclev, thlev, tdlev);
-      ipe570 = &event_.grab_last_particle();
+      npe570 = event_.get_particles().size() - 1;
       PbAtShell(prng_, event_, 3, 0., 0., tdlev);
     }
     // Angular correlation between gammas and conversion electrons of 1064 and
@@ -294,26 +294,26 @@ namespace bxdecay0 {
     // coefficients are used.
     // Thanks to V.Vasilyev for correcting formula in previous DECAY0 version
     // for case of two conversion electrons emitted.
-    if (ipg1064 != nullptr && ipg570 != nullptr) {
+    if (npg1064 >= 0 && npg570 >= 0) {
       a2     = 0.231;
       a4     = -0.023;
-      ip1064 = ipg1064;
-      ip570  = ipg570;
-    } else if (ipe1064 != nullptr && ipg570 != nullptr) {
+      ip1064 = &event_.grab_particles()[npg1064];
+      ip570  = &event_.grab_particles()[npg570];
+    } else if (npe1064 >= 0 && npg570 >= 0) {
       a2     = 0.223;
       a4     = -0.020;
-      ip1064 = ipe1064;
-      ip570  = ipg570;
-    } else if (ipg1064 != nullptr && ipe570 != nullptr) {
+      ip1064 = &event_.grab_particles()[npe1064];
+      ip570  = &event_.grab_particles()[npg570];
+    } else if (npg1064 >= 0 && npe570 >= 0) {
       a2     = 0.275;
       a4     = -0.012;
-      ip1064 = ipg1064;
-      ip570  = ipe570;
-    } else if (ipe1064 != nullptr && ipe570 != nullptr) {
+      ip1064 = &event_.grab_particles()[npg1064];
+      ip570  = &event_.grab_particles()[npe570];
+    } else if (npe1064 >= 0 && npe570 >= 0) {
       a2     = 0.271;
       a4     = -0.010;
-      ip1064 = ipe1064;
-      ip570  = ipe570;
+      ip1064 = &event_.grab_particles()[npe1064];
+      ip570  = &event_.grab_particles()[npe570];
     } else {
       return;
     }
